@@ -38,7 +38,17 @@ Inductive hop :=
 | HFilter (a : nat) (c : crit)       (* x_new = Value(x_a.coin, x_a.multi_asset.filter(c)) *)
 | HNormalize (a : nat)               (* x_a.multi_asset.normalize() *)
 | HEq (a b : nat) | HLe (a b : nat) | HLt (a b : nat)   (* observations *)
-| HCount (a : nat) (c : crit).
+| HCount (a : nat) (c : crit)
+(* x_a >= x_b, x_a > x_b: the classes define only __le__ / __lt__ / __eq__, Python evaluates the reflected
+   x_b.__le__(x_a) / x_b.__lt__(x_a) *)
+| HGe (a b : nat) | HGt (a b : nat)
+(* the same one and two levels down: x_a.multi_asset <= / >= x_b.multi_asset;  x_a.multi_asset[p] <= / >= x_b.multi_asset[p]
+   (observed only when both bundles hold policy p) *)
+| HMaLe (a b : nat) | HMaGe (a b : nat)
+| HALe (a : nat) (p : bytes) (b : nat) | HAGe (a : nat) (p : bytes) (b : nat)
+(* x_a.multi_asset[p] += x_b.multi_asset[p]  (Asset.__iadd__, then MultiAsset.__setitem__ of the same key; skipped unless
+   both bundles hold policy p) *)
+| HAIAdd (a : nat) (p : bytes) (b : nat).
 
 Definition vloc (s : store) (a : nat) : nat := nth a (vars s) 0%nat.
 Definition vobj (s : store) (a : nat) : Z * nat := nth (vloc s a) (vobjs s) (0, 0%nat).
@@ -83,6 +93,26 @@ Definition exec (s : store) (o : hop) : store * obs :=
   | HLe a b => (s, OBool (v_le (val_of s a) (val_of s b)))
   | HLt a b => (s, OBool (v_lt (val_of s a) (val_of s b)))
   | HCount a c => (s, OInt (m_count (crit_fn c) (massets (val_of s a))))
+  | HGe a b => (s, OBool (v_le (val_of s b) (val_of s a)))
+  | HGt a b => (s, OBool (v_lt (val_of s b) (val_of s a)))
+  | HMaLe a b => (s, OBool (m_le (massets (val_of s a)) (massets (val_of s b))))
+  | HMaGe a b => (s, OBool (m_le (massets (val_of s b)) (massets (val_of s a))))
+  | HALe a p b =>
+      match dget (massets (val_of s a)) p, dget (massets (val_of s b)) p with
+      | Some x, Some y => (s, OBool (a_le x y))
+      | _, _ => (s, ONone)
+      end
+  | HAGe a p b =>
+      match dget (massets (val_of s a)) p, dget (massets (val_of s b)) p with
+      | Some x, Some y => (s, OBool (a_le y x))
+      | _, _ => (s, ONone)
+      end
+  | HAIAdd a p b =>
+      let m := massets (val_of s a) in
+      match dget m p, dget (massets (val_of s b)) p with
+      | Some x, Some y => (mkStore (vars s) (vobjs s) (upd (mobjs s) (snd (vobj s a)) (dset m p (a_add x y))), ONone)
+      | _, _ => (s, ONone)
+      end
   end.
 
 Fixpoint run (s : store) (ops : list hop) : store * list obs :=
@@ -96,7 +126,7 @@ Definition snapshot (s : store) : list (Z * masset) :=
 
 (* ---------- frame properties ---------- *)
 Definition in_place (o : hop) : bool :=
-  match o with HIAdd _ _ | HMaIAdd _ _ | HSetItem _ _ _ _ | HNormalize _ => true | _ => false end.
+  match o with HIAdd _ _ | HMaIAdd _ _ | HSetItem _ _ _ _ | HNormalize _ | HAIAdd _ _ _ => true | _ => false end.
 
 Lemma nth_app_l {A} (l l' : list A) i d : (i < length l)%nat -> nth i (l ++ l') d = nth i l d.
 Proof. intros. now apply app_nth1. Qed.
@@ -122,8 +152,9 @@ Theorem pure_ops_preserve_objects s o :
   /\ (forall l, (l < length (mobjs s))%nat -> nth l (mobjs s') [] = nth l (mobjs s) [])
   /\ (forall a, (a < length (vars s))%nat -> nth a (vars s') 0%nat = nth a (vars s) 0%nat).
 Proof.
-  destruct o; cbn; intros H; try discriminate; repeat split; intros; try reflexivity;
-    try (apply nth_app_l; assumption).
+  destruct o; cbn; intros H; try discriminate;
+    repeat match goal with |- context [match dget ?m ?p with _ => _ end] => destruct (dget m p) end;
+    cbn; repeat split; intros; try reflexivity; try (apply nth_app_l; assumption).
 Qed.
 
 (* x_a += x_b changes exactly the fields of the Value object of x_a: all other Value objects and
@@ -151,3 +182,34 @@ Theorem ma_iadd_frame s a b :
   vobjs s' = vobjs s /\ vars s' = vars s
   /\ (forall l, l <> snd (vobj s a) -> nth l (mobjs s') [] = nth l (mobjs s) []).
 Proof. cbn [exec fst vobjs mobjs vars]. repeat split. intros l H. apply nth_upd_other. congruence. Qed.
+
+(* Asset += (x_a.multi_asset[p] += x_b.multi_asset[p]) changes exactly one entry of exactly one MultiAsset object: the
+   Asset under p of the left bundle becomes the pure, normalised sum; every other policy of that bundle, every other
+   MultiAsset object, every Value object and every variable is what it was — also when a and b alias *)
+Theorem asset_iadd_frame s a p b x y :
+  (snd (vobj s a) < length (mobjs s))%nat ->
+  dget (massets (val_of s a)) p = Some x -> dget (massets (val_of s b)) p = Some y ->
+  let s' := fst (exec s (HAIAdd a p b)) in
+  vobjs s' = vobjs s /\ vars s' = vars s
+  /\ (forall l, l <> snd (vobj s a) -> nth l (mobjs s') [] = nth l (mobjs s) [])
+  /\ dget (massets (val_of s' a)) p = Some (a_add x y)
+  /\ (forall p', p <> p' -> dget (massets (val_of s' a)) p' = dget (massets (val_of s a)) p').
+Proof.
+  intros Hl Hx Hy. cbn [exec]. rewrite Hx, Hy. cbn [fst vobjs vars mobjs].
+  assert (E : massets (val_of (mkStore (vars s) (vobjs s)
+                 (upd (mobjs s) (snd (vobj s a)) (dset (massets (val_of s a)) p (a_add x y)))) a)
+              = dset (massets (val_of s a)) p (a_add x y)).
+  { unfold val_of, vobj, vloc, mobj. cbn [vars vobjs mobjs massets snd fst]. apply nth_upd_same. exact Hl. }
+  repeat split.
+  - intros l Hne. apply nth_upd_other. congruence.
+  - rewrite E. apply dget_dset_same.
+  - intros p' Hne. rewrite E. now apply dget_dset_other.
+Qed.
+
+(* when either bundle lacks the policy the statement is not executed (the driver skips it): nothing changes *)
+Theorem asset_iadd_skip s a p b :
+  dget (massets (val_of s a)) p = None \/ dget (massets (val_of s b)) p = None ->
+  exec s (HAIAdd a p b) = (s, ONone).
+Proof.
+  intros [H|H]; cbn [exec]; rewrite H; [reflexivity|]. destruct (dget (massets (val_of s a)) p); reflexivity.
+Qed.
